@@ -301,6 +301,46 @@ def _linear_container3(c0: int, c1: int, c2: int, api: int, d0: bool, d1: bool, 
     return linear_container([c0, c1, c2], api, [d0, d1, d2], [v0, v1, v2], t0, as_list)
 
 
+def same_argnums(coefs, reg, diff, vals, t0):
+    """defjvp(p, "same", ..., argnums=<the positions in reg>): the 'same' shorthand registered for a SUBSET of the
+    positions (entry index != argument number).  Differentiating a registered position re-applies p with the tangent
+    substituted at THAT position; an unregistered position raises."""
+    n = len(coefs)
+
+    @primitive
+    def p(*args):
+        return Q(sum(coefs[i] * args[i].v for i in range(n)))
+
+    idx = [i for i in range(n) if reg[i]]
+    defjvp(p, *["same" for _ in idx], argnums=tuple(idx))
+    consts = [Q(v) for v in vals]
+
+    def f(x):
+        return p(*[x if diff[i] else consts[i] for i in range(n)])
+
+    must_raise = any(diff[i] and not reg[i] for i in range(n))
+    try:
+        y, t = make_jvp(f, Q(vals[0]))(Q(t0))
+    except Exception:
+        return must_raise
+    if must_raise:
+        return False
+    want = 0
+    for i in range(n):
+        if diff[i]:
+            others = sum(coefs[j] * (vals[0] if diff[j] else vals[j]) for j in range(n) if j != i)
+            want = want + coefs[i] * t0 + others
+    return t.v == want
+
+
+def _same_argnums3(c0: int, c1: int, c2: int, r0: bool, r1: bool, r2: bool, d0: bool, d1: bool, d2: bool, v0: int, v1: int, v2: int, t0: int) -> bool:
+    """
+    pre: (r0 or r1 or r2) and (d0 or d1 or d2)
+    post: _
+    """
+    return same_argnums([c0, c1, c2], [r0, r1, r2], [d0, d1, d2], [v0, v1, v2], t0)
+
+
 def two_levels(c0, c1, inner0, x0, y0, m_o, m_i):
     """p(a, b) = c0*a*b ... arguments assigned to the inner or the outer of two nested traces: d/dy [ d/dx p ]"""
     def outer(y):
